@@ -285,4 +285,170 @@ theorem mainPlaying_run (decl : Seat) (deal : Hands) (l : List (Card × Text)) (
   simp only [mainPlayingR, h, Option.bind_eq_bind, Option.bind_some, Option.pure_def, progOfPhases_cons, phaseProg,
     putAll]
 
+/-! ## the record -/
+
+theorem recordFrom_passed (sc : Scenario) (b : BoardSetting) (d : Decisions)
+    (hf : (boardContract b d).finalBid = none) :
+    recordFrom sc b (d.calls.map (·.1)) (boardContract b d) none = recordOf sc b d := by
+  rw [recordOf_passed sc b d (Or.inl hf)]
+  simp only [recordFrom, hf]
+
+theorem recordFrom_played (sc : Scenario) (b : BoardSetting) (d : Decisions) (i : Fin 35) (decl : Seat)
+    (w0 w : WithHands) (hf : (boardContract b d).finalBid = some i) (hd : (boardContract b d).declarer = some decl)
+    (hw0 : WithHands.init (boardContract b d) b.deal = some w0)
+    (hacc : playsAccepted w0 (d.cards.map (·.1)) = some w) :
+    recordFrom sc b (d.calls.map (·.1)) (boardContract b d) (some w) = recordOf sc b d := by
+  have hpa : playAll (boardContract b d) b.deal (d.cards.map (·.1)) = some w := by
+    simp only [playAll, hw0, Option.map_some]
+    exact congrArg some (playsAccepted_spec _ _ _ hacc).1
+  rw [recordOf_played sc b d i decl hf hd]
+  simp only [recordFrom, hf, hd, hpa]
+  rfl
+
+/-! ## one board -/
+
+/-- the last phase of a board -/
+def finalPhase (sc : Scenario) (last : Bool) (b : BoardSetting) (d : Decisions) : Phase Text LogOp :=
+  if last then Phase.lastBoard (LogOp.write (recordOf sc b d)) LogOp.close MSG_END
+  else Phase.nextBoard (LogOp.write (recordOf sc b d)) MSG_NEXT MSG_START
+
+theorem t2mOf_final (sc : Scenario) (last : Bool) (b : BoardSetting) (d : Decisions) (p : Seat) :
+    t2mOf p (finalPhase sc last b d) = [] := by
+  cases last <;> simp [finalPhase]
+
+theorem final_rest (sc : Scenario) (last : Bool) (b : BoardSetting) (d : Decisions) (rest : MainIn) :
+    (fun p => List.flatMap (t2mOf p) [finalPhase sc last b d] ++ rest p) = rest := by
+  funext p; simp [t2mOf_final]
+
+theorem boardPhases_eq (sc : Scenario) (k : Nat) (last : Bool) (b : BoardSetting) (d : Decisions) :
+    boardPhases sc k last b d =
+      Phase.deal (boardHeader k b.dealer b.vul) (fun p => cardsMsg p.formal (b.deal p))
+        (fun p => readyFor p "deal".toList) (fun p => readyFor p "cards".toList) ::
+      (callPhases b.dealer 0 d.calls ++
+      (Phase.auctionEnd MSG_NULL (if (boardContract b d).isPassedOut then MSG_PASSED_OUT else MSG_NULL) ::
+      ((match PState.init (boardContract b d), (boardContract b d).declarer with
+        | some s0, some decl => Phase.playStart decl.formal :: cardPhases decl b.deal s0 0 d.cards
+        | _, _ => []) ++ [finalPhase sc last b d]))) := by
+  simp only [boardPhases, boardContract, finalPhase, List.append_assoc, List.cons_append, List.nil_append]
+  rfl
+
+/-- the auction of a board -/
+theorem mainBoard_bid (b : BoardSetting) (d : Decisions) (hca : ConformingAuction b d) (htx : TextsConform b d)
+    (i rest : MainIn) (tail : List (Phase Text LogOp))
+    (hfeed : Feeds i (callPhases b.dealer 0 d.calls ++ tail) rest) :
+    ∃ sf i2, sf.contract = some (boardContract b d) ∧ sf.history.reverse = d.calls.map (·.1) ∧
+      Feeds i2 tail rest ∧
+      mainBiddingR (320 + 1) (AState.init b.dealer b.vul) i =
+        some (progOfPhases (callPhases b.dealer 0 d.calls) .main ++
+          phaseProg (Phase.auctionEnd MSG_NULL
+            (if (boardContract b d).isPassedOut then MSG_PASSED_OUT else MSG_NULL) : Phase Text LogOp) .main,
+          sf, i2) := by
+  have hbc := boardContract_conforming b d hca
+  obtain ⟨hll, hel⟩ := hca
+  have hleg : Legal b.dealer (d.calls.map (·.1)).reverse := (legal_iff_legalLaw _ _).2 hll
+  have hov : over (d.calls.map (·.1)).reverse = true := over_of_ended_law _ hel
+  have hlen : d.calls.length ≤ 319 := by
+    have := legal_length_le_319 _ _ hleg
+    simpa using this
+  obtain ⟨sf, hisf, hbid⟩ := mainBidding_run b.dealer b.vul d.calls 0 (AState.init b.dealer b.vul) [] (320 + 1) i _
+    (ainv_init _ _) rfl (by simpa using hleg) (by simpa using hov)
+    (fun j hj => by simpa using htx.calls j hj) (by omega) (feeds_append hfeed)
+  simp only [List.append_nil] at hisf hbid
+  rw [← hbc] at hbid
+  refine ⟨sf, _, ?_, ?_, feeds_refl tail rest, hbid⟩
+  · rw [hbc]; exact C03.contract_is_spec _ _ _ _ ⟨hisf, hleg⟩ hel
+  · rw [hisf.hist, List.reverse_reverse]
+
+theorem mainBoard_run (sc : Scenario) (k : Nat) (last : Bool) (b : BoardSetting) (d : Decisions)
+    (hca : ConformingAuction b d) (hcp : ConformingPlay b d) (htx : TextsConform b d) (i rest : MainIn)
+    (hfeed : Feeds i (boardPhases sc k last b d) rest) :
+    mainBoardR sc k last b i = some (progOfPhases (boardPhases sc k last b d) .main, rest) := by
+  have hbc := boardContract_conforming b d hca
+  rw [boardPhases_eq] at hfeed ⊢
+  have hfeed1 := feeds_skip (fun p => t2mOf_deal p _ _ _ _) hfeed
+  rcases specContract_shape b.dealer b.vul (d.calls.map (·.1)).reverse with ⟨hf, hd⟩ | ⟨bi, decl, hf, hd⟩
+  · rw [← hbc] at hf hd
+    have hpo : (boardContract b d).isPassedOut = true := by simp [Contract.isPassedOut, hf]
+    have hinit : PState.init (boardContract b d) = none := by simp [PState.init, hf]
+    simp only [hinit, List.nil_append] at hfeed1 ⊢
+    obtain ⟨sf, i2, hcon, hhist, hfeed2, hbid⟩ := mainBoard_bid b d hca htx i rest _ hfeed1
+    have hi2 : i2 = rest := feeds_nil
+      (feeds_skip (t2mOf_final sc last b d) (feeds_skip (fun p => t2mOf_auctionEnd p _ _) hfeed2))
+    subst hi2
+    unfold mainBoardR
+    rw [hbid]
+    simp only [Option.bind_eq_bind, Option.bind_some, hcon, hhist, hpo, if_true, Option.pure_def,
+      recordFrom_passed sc b d hf]
+    cases last <;>
+      simp [progOfPhases_cons, progOfPhases_append, phaseProg, mainDealR, putAll, finalPhase]
+  · rw [← hbc] at hf hd
+    have hpo : (boardContract b d).isPassedOut = false := by simp [Contract.isPassedOut, hf]
+    obtain ⟨s0, hs0, -⟩ := C04.opening_lead_and_dummy (boardContract b d) bi decl hf hd
+    have hw0 : WithHands.init (boardContract b d) b.deal = some ⟨s0, b.deal⟩ := by
+      simp [WithHands.init, hs0]
+    have hct := cardTexts_of_conform b d htx _ hw0
+    unfold ConformingPlay at hcp
+    rw [hw0] at hcp
+    obtain ⟨h52, hacc⟩ := hcp
+    obtain ⟨w', hw'⟩ := Option.isSome_iff_exists.1 hacc
+    simp only [hs0, hd] at hfeed1 ⊢
+    obtain ⟨sf, i2, hcon, hhist, hfeed2, hbid⟩ := mainBoard_bid b d hca htx i rest _ hfeed1
+    have hplay := mainPlaying_run decl b.deal d.cards ⟨s0, b.deal⟩ w' _ _ h52 (pinv_init hs0) hct hw'
+      (feeds_append (feeds_skip (fun p => t2mOf_auctionEnd p _ _) hfeed2))
+    rw [final_rest] at hplay
+    unfold mainBoardR
+    rw [hbid]
+    simp only [Option.bind_eq_bind, Option.bind_some, hcon, hhist, hpo, hd, hw0, hplay, Option.pure_def,
+      recordFrom_played sc b d bi decl _ w' hf hd hw0 hw']
+    cases last <;>
+      simp [progOfPhases_cons, progOfPhases_append, phaseProg, mainDealR, putAll, finalPhase]
+
+/-! ## the boards, the session -/
+
+theorem mainBoards_run (sc : Scenario) : ∀ (boards : List (BoardSetting × Decisions)) (k : Nat) (i : MainIn),
+    (∀ bd ∈ boards, ConformingAuction bd.1 bd.2 ∧ ConformingPlay bd.1 bd.2 ∧ TextsConform bd.1 bd.2) →
+    Feeds i (boardsPhases sc k boards) (fun _ => []) →
+    mainBoardsR sc k (boards.map (·.1)) i = some (progOfPhases (boardsPhases sc k boards) .main) := by
+  intro boards
+  induction boards with
+  | nil => intro k i _ _; rfl
+  | cons x r ih =>
+    intro k i hc hfeed
+    obtain ⟨b, d⟩ := x
+    obtain ⟨h1, h2, h3⟩ := hc (b, d) List.mem_cons_self
+    cases r with
+    | nil =>
+      simp only [boardsPhases] at hfeed ⊢
+      simp only [List.map_cons, List.map_nil, mainBoardsR, mainBoard_run sc k true b d h1 h2 h3 i _ hfeed,
+        Option.map_some]
+    | cons y r' =>
+      rw [boardsPhases] at hfeed ⊢
+      · have hb := mainBoard_run sc k false b d h1 h2 h3 i _ (feeds_append hfeed)
+        have hr := ih (k + 1) _ (fun bd hbd => hc bd (List.mem_cons_of_mem _ hbd)) (feeds_refl _ _)
+        rw [List.map_cons, List.map_cons, mainBoardsR.eq_3 _ _ _ _ _ (by simp), hb]
+        rw [List.map_cons] at hr
+        simp only [Option.bind_eq_bind, Option.bind_some, hr, Option.pure_def, progOfPhases_append]
+      · simp
+      · simp
+
+/-- fed the messages the seat threads forward to it in a session whose decisions are conforming and whose texts mean
+what was decided, the reactive main thread performs exactly the straight-line program of the session model — the
+records it writes included -/
+theorem mainReactive_session (sc : Scenario) (h : sc.boards ≠ [])
+    (hc : ∀ bd ∈ sc.boards, ConformingAuction bd.1 bd.2 ∧ ConformingPlay bd.1 bd.2 ∧ TextsConform bd.1 bd.2) :
+    mainReactive sc (sc.boards.map (·.1)) (fun p => sendsOn (Chan.t2m p) (sessionProg sc (.seat p)))
+      = some (sessionProg sc .main) := by
+  have _ := h   -- not needed: with no board both sides are the seating phase alone
+  have hfeed : Feeds (fun p => sendsOn (Chan.t2m p) (sessionProg sc (.seat p))) (boardsPhases sc 1 sc.boards)
+      (fun _ => []) := by
+    intro p
+    show sendsOn (Chan.t2m p) (sessionProg sc (.seat p)) = _
+    unfold sessionProg sessionPhases
+    rw [sendsOn_progOfPhases, List.flatMap_cons]
+    show t2mOf p _ ++ List.flatMap (t2mOf p) _ = _
+    simp
+  unfold mainReactive
+  rw [mainBoards_run sc sc.boards 1 _ hc hfeed]
+  simp only [Option.map_some, sessionProg, sessionPhases, progOfPhases_cons, phaseProg]
+
 end Bridge
